@@ -2,7 +2,7 @@
 //! and suite "libm": answers oracle requests (sin, cos, tan, exp, powf) with this binary's own libm.
 use crate::sx::{f32_sx, Sx};
 
-pub const SUITES: &[(&str, fn(&Sx) -> Sx)] = &[("f32", run), ("libm", libm)];
+pub const SUITES: &[(&str, fn(&Sx) -> Sx)] = &[("f32", run), ("libm", libm), SWEEP];
 
 pub fn libm_eval(fnid: i128, arg: i128) -> Option<f32> {
     let x = f32::from_bits((arg & 0xffff_ffff) as u32);
@@ -64,6 +64,35 @@ fn run(c: &Sx) -> Sx {
             18 => f32_sx(a.powf(b)),
             _ => return None,
         })
+    };
+    go().unwrap_or_else(Sx::bad)
+}
+
+// ---------------------------------------------------------------------------------------------
+// Suite "f32sweep": the scalar float round-trip law of C11 enumerated natively over a range of
+// bit patterns: format!("{:.3}") -> parse::<f32>() -> format!("{:.3}") must reproduce the text.
+// case: (profile () lo hi)  ->  (failures first_failing_bits_or_-1)
+pub const SWEEP: (&str, fn(&Sx) -> Sx) = ("f32sweep", sweep);
+fn sweep(c: &Sx) -> Sx {
+    let go = || -> Option<Sx> {
+        let c = c.as_l()?;
+        let lo = c.get(2)?.as_z()?;
+        let hi = c.get(3)?.as_z()?;
+        if lo < 0 || hi > (1i128 << 32) || lo > hi { return None; }
+        let mut fails: i128 = 0;
+        let mut first: i128 = -1;
+        let mut b = lo;
+        while b < hi {
+            let x = f32::from_bits(b as u32);
+            let s1 = format!("{:.3}", x);
+            let ok = match s1.parse::<f32>() {
+                Ok(y) => format!("{:.3}", y) == s1,
+                Err(_) => false,
+            };
+            if !ok { fails += 1; if first < 0 { first = b; } }
+            b += 1;
+        }
+        Some(Sx::L(vec![Sx::Z(fails), Sx::Z(first)]))
     };
     go().unwrap_or_else(Sx::bad)
 }
